@@ -3488,7 +3488,7 @@ class TensorDict(TensorDictBase):
             recurse=recurse,
             batch_size=batch_size,
             device=device,
-            names=None if names is NO_DEFAULT else names,
+            names=names,
         )
 
     def _select(
